@@ -16,6 +16,11 @@ def _regen_tl_cost_table():
     from ..translate import tl_cost
     return tl_cost.regenerate()
 
+def _regen_boc_parser():
+    from ..translate import boccells
+    return boccells.regenerate()
+
+
 SPEC = dict(
     manifest=dict(
         category='proof',
@@ -58,6 +63,9 @@ SPEC = dict(
              'model is tied to the source by proof rather than measurement: the vector-length guard added by fix 110bf4a '
              '(`length > len(data) - i`, Python ints) and the bytes-field header / skip arithmetic of TlSchemas.deserialize are re-translated from '
              'tl/generator.py on every run (Generated/TlFraming.lean) and proved, for every input and offset, to be what Tl.fieldStep of the cost '
+             'SOURCE TIE of the BoC parser (c19_src_parse, c19_src_loop_iterations): the three loops of Boc.deserialize, deserialize_cell and the header parser are regenerated from '
+             'deserialize.py on every run as Py.loop? folds over range(cells_num), reversed(range(cells_num)), root_list (one body execution per element at most) and proved equal to '
+             'Model/BocParse.lean, whose recursions Model/Cost.lean transcribes as counters; that the COUNTERS of bocCost equal the iteration counts of the regenerated loops is not proved. '
              'model computes (c19_src_tl_vector_guard, c19_src_tl_bytes_skip).',
         level_note='Trusted: Lean kernel (propext, Classical.choice, Quot.sound); Model/Cost.lean as a hand transcription of the loops of '
                    'cell.py (order, to_boc, __init__/calculate_hashes), deserialize.py, hashmap/parse.py, tl/generator.py (upper-bound '
@@ -69,7 +77,9 @@ SPEC = dict(
                   '+ source-regenerated TL guard / framing arithmetic',
     ),
     translators=[('bundled tl schemas->Generated/TlCostTable.lean', _regen_tl_cost_table),
-                 ('tl/generator.py bytes framing + vector guard->Generated/TlFraming.lean', arith2.regenerator('TlFraming'))],
+                 ('tl/generator.py bytes framing + vector guard->Generated/TlFraming.lean', arith2.regenerator('TlFraming')),
+                 ('deserialize.py deserialize_boc_header, deserialize_cell, deserialize->Generated/BocHeader.lean, BocCells.lean', _regen_boc_parser)],
+    lean_targets=['TonVerif.Proofs.SrcBocDeser'],
     design_ref='DESIGN.md §6 C19',
     rule='one case = one public call on one adversarial input with its model step count; families: double/triple-ref chains 10..1000, '
          'depth-1023 chains, diamonds, wide sharing, random DAGs (order, to_boc x flag sets, from_boc, construction); BoC byte strings '
